@@ -24,7 +24,7 @@ RULE = ("random (algorithm in 6, dimension n 2..10 as vector or matrix, sketch s
         "row-by-row stepping of the update function for the sketched methods)")
 ASSUMPTIONS = ["float64 comparisons with relative tolerance 1e-9 (1e-7 for dense-inverse cross checks scaled by condition number)"]
 DECIDING = ["closed_form_checked", "last_row_zero_checked", "bracket_checked", "alpha_checked",
-            "lossless_checked", "precond_apply_checked", "train_history_checked"]
+            "lossless_checked", "precond_apply_checked", "train_history_checked", "reinit_checked"]
 MIN_NONTRIVIAL = 30
 TIMEOUT = {"quick": 900, "thorough": 5400}
 
@@ -107,6 +107,7 @@ def check_case(c, rec):
   hp = A.HParams(delta=delta, lr=lr, sketch_size=m, algorithm=A.Algorithm[alg])
   init, upd = A.generate_init_update(wshape, hp)
   st = init()
+  st_init = {k: np.array(v, np.float64) for k, v in st.items()}
   w_ref = np.zeros(n)
   h_ref = np.ones(n) * delta
   C = np.zeros((n, n))       # covariance of the sketched inputs
@@ -115,9 +116,18 @@ def check_case(c, rec):
   rank_ok = True
   for t, g in enumerate(gs, start=1):
     pre = {k: np.asarray(v, np.float64) for k, v in st.items()}
-    st = upd(dict(st), jnp.array(0.0), jnp.asarray(g))
+    # eager use as in the library's own loop: the state dictionary is handed over and updated in place
+    st = upd(st, jnp.array(0.0), jnp.asarray(g))
     post = {k: np.asarray(v, np.float64) for k, v in st.items()}
     gv = g.ravel()
+    if t == len(gs) or t == 1:
+      # a second sequence through the same bound functions must start from the documented initial state
+      # (w = 0, t = 0, alpha = diag_h = delta, empty sketch), whatever the first sequence did to its own state
+      again = {k: np.asarray(v, np.float64) for k, v in init().items()}
+      rec.count("reinit_checked")
+      if set(again) != set(st_init) or any(again[k].shape != st_init[k].shape or np.any(again[k] != st_init[k]) for k in st_init):
+        rec.violation("init-not-fresh", "%s: init() after %d update(s) of an earlier sequence does not return the initial state" % (alg, t), wit)
+        return
     if not all(np.all(np.isfinite(v)) for v in post.values()):
       rec.violation("non-finite", "%s: non-finite state at step %d" % (alg, t), wit)
       return
